@@ -6,18 +6,25 @@ Require Import AV.Mini.Syntax AV.Mini.Types AV.Mini.Eval.
 Import ListNotations.
 
 (* evaluate one top-level form, exactly as Eval.eval_items does *)
-Definition step_item (F : list fundef) (f : nat) (s : state) (it : item) : option state :=
+Inductive step_res : Type :=
+| StepOk (s : state)       (* the form completed *)
+| StepEnd (s : state)      (* the form ended the program by an unhandled exception / error *)
+| StepBad.                 (* out of fuel, undefined, stuck: no expected output *)
+
+Definition step_item (F : list fundef) (f : nat) (s : state) (it : item) : step_res :=
   match it with
   | IConst _ e | IVar _ e =>
       match eval_expr F f (with_frame s []) e with
-      | RVal s1 v => Some (mkSt (sg s1 ++ [v]) [] (so s1))
-      | _ => None
+      | RVal s1 v => StepOk (mkSt (sg s1 ++ [v]) [] (so s1))
+      | RThrow s1 _ => StepEnd s1
+      | _ => StepBad
       end
-  | IFun _ => Some s
+  | IFun _ => StepOk s
   | IStmt st =>
       match eval_stmt F f (with_frame s []) st with
-      | RVal s1 _ => Some (with_frame s1 [])
-      | _ => None
+      | RVal s1 _ => StepOk (with_frame s1 [])
+      | RThrow s1 _ => StepEnd s1
+      | _ => StepBad
       end
   end.
 
@@ -25,16 +32,19 @@ Definition step_item (F : list fundef) (f : nat) (s : state) (it : item) : optio
 Definition delta (s s' : state) : string :=
   String.concat "" (rev (firstn (List.length (so s') - List.length (so s)) (so s'))).
 
+(* outputs of the forms that are executed: all of them, or those up to and including the
+   form that ends the program                                                             *)
 Fixpoint eval_forms (F : list fundef) (f : nat) (s : state) (p : prog) : option (list string) :=
   match p with
   | [] => Some []
   | it :: r =>
       match step_item F f s it with
-      | Some s' => match eval_forms F f s' r with
-                   | Some outs => Some (delta s s' :: outs)
-                   | None => None
-                   end
-      | None => None
+      | StepOk s' => match eval_forms F f s' r with
+                     | Some outs => Some (delta s s' :: outs)
+                     | None => None
+                     end
+      | StepEnd s' => Some [delta s s']
+      | StepBad => None
       end
   end.
 
